@@ -8,6 +8,12 @@
 //   the senders' sequences (test oracle).
 // Part 3 (corpus): the recorded racy program (closure created in a go statement's arguments, called by a third
 //   goroutine); under -race its reports are keyed C10-go-arg-closure-race.
+// Ownership probes (every tier): the generated programs call chk() at the start of every goroutine body and inside
+//   closures; in gomacro chk is a compiled function registered with DeclEnvFunc that receives the calling frame:
+//   the Run of that frame must be owned by the running goroutine's identity (gls.GoID) and must not be in use by
+//   two goroutines at once.  After every program the registry (hook VerifRegistry) must return to exactly
+//   {creator -> the interpreter's own Run}: every go-statement goroutine registers a record of its own and removes
+//   it on exit, and never touches the creator's entry.
 // Thorough tier: built with -race; the process re-executes itself with GORACE=log_path and turns every report
 // into a failure.
 package main
@@ -23,9 +29,13 @@ import (
 	"sort"
 	"strconv"
 	"strings"
+	"sync"
+	"sync/atomic"
 	"time"
 
 	"github.com/cosmos72/gomacro/fast"
+	"github.com/cosmos72/gomacro/gls"
+	xr "github.com/cosmos72/gomacro/xreflect"
 	"verifh/vh"
 )
 
@@ -46,31 +56,31 @@ func genIndep(rng *vh.Rng, k int) prog {
 	switch rng.Intn(9) {
 	case 0:
 		kind = "fanin-unbuffered"
-		body = fmt.Sprintf(`ch := make(chan int); for i := 0; i < %d; i++ { go func(k int) { ch <- k*k + %d }(i) }; s := 0; for i := 0; i < %d; i++ { s += <-ch }; return s`, n, a, n)
+		body = fmt.Sprintf(`ch := make(chan int); for i := 0; i < %d; i++ { go func(k int) { chk(); ch <- k*k + %d }(i) }; s := 0; for i := 0; i < %d; i++ { s += <-ch }; return s`, n, a, n)
 	case 1:
 		kind = "buffered-close-range"
-		body = fmt.Sprintf(`ch := make(chan int, %d); go func() { for i := 0; i < %d; i++ { ch <- i + %d }; close(ch) }(); s := 0; for v := range ch { s = s*3 + v }; return s`, b, n+3, a)
+		body = fmt.Sprintf(`ch := make(chan int, %d); go func() { chk(); for i := 0; i < %d; i++ { ch <- i + %d }; close(ch) }(); s := 0; for v := range ch { s = s*3 + v }; return s`, b, n+3, a)
 	case 2:
 		kind = "waitgroup-mutex"
-		body = fmt.Sprintf(`var wg sync.WaitGroup; var mu sync.Mutex; c := 0; for i := 0; i < %d; i++ { wg.Add(1); go func(k int) { defer wg.Done(); mu.Lock(); c += k*%d + 1; mu.Unlock() }(i) }; wg.Wait(); return c`, n, a+1)
+		body = fmt.Sprintf(`var wg sync.WaitGroup; var mu sync.Mutex; c := 0; for i := 0; i < %d; i++ { wg.Add(1); go func(k int) { defer wg.Done(); chk(); mu.Lock(); c += k*%d + 1; mu.Unlock() }(i) }; wg.Wait(); return c`, n, a+1)
 	case 3:
 		kind = "select-default-poll"
-		body = fmt.Sprintf(`ch := make(chan int, %d); go func() { for i := 1; i <= %d; i++ { ch <- i * %d } }(); s, got, spins := 0, 0, 0; for got < %d { select { case v := <-ch: s += v; got++; default: spins++ } }; return s`, b, n, a+1, n)
+		body = fmt.Sprintf(`ch := make(chan int, %d); go func() { chk(); for i := 1; i <= %d; i++ { ch <- i * %d } }(); s, got, spins := 0, 0, 0; for got < %d { select { case v := <-ch: s += v; got++; default: spins++ } }; return s`, b, n, a+1, n)
 	case 4:
 		kind = "select-two-producers"
-		body = fmt.Sprintf(`x := make(chan int); y := make(chan int, %d); go func() { for i := 0; i < %d; i++ { x <- i } }(); go func() { for i := 0; i < %d; i++ { y <- 100 + i } }(); s := 0; for i := 0; i < %d; i++ { select { case v := <-x: s += v; case v := <-y: s += v * 2 } }; return s`, b, n, n+1, 2*n+1)
+		body = fmt.Sprintf(`x := make(chan int); y := make(chan int, %d); go func() { chk(); for i := 0; i < %d; i++ { x <- i } }(); go func() { chk(); for i := 0; i < %d; i++ { y <- 100 + i } }(); s := 0; for i := 0; i < %d; i++ { select { case v := <-x: s += v; case v := <-y: s += v * 2 } }; return s`, b, n, n+1, 2*n+1)
 	case 5:
 		kind = "shared-closure"
-		body = fmt.Sprintf(`var mu sync.Mutex; total := 0; add := func(d int) { mu.Lock(); total += d; mu.Unlock() }; done := make(chan bool); for i := 0; i < %d; i++ { go func(k int) { get := func() int { return k * %d }; add(get()); add(1); done <- true }(i) }; for i := 0; i < %d; i++ { <-done }; return total`, n, a+2, n)
+		body = fmt.Sprintf(`var mu sync.Mutex; total := 0; add := func(d int) { chk(); mu.Lock(); total += d; mu.Unlock() }; done := make(chan bool); for i := 0; i < %d; i++ { go func(k int) { chk(); get := func() int { chk(); return k * %d }; add(get()); add(1); done <- true }(i) }; for i := 0; i < %d; i++ { <-done }; return total`, n, a+2, n)
 	case 6:
 		kind = "pipeline"
-		body = fmt.Sprintf(`c1 := make(chan int); c2 := make(chan int, %d); go func() { for i := 0; i < %d; i++ { c1 <- i }; close(c1) }(); go func() { for v := range c1 { c2 <- v*v + %d }; close(c2) }(); s := 0; for v := range c2 { s = s*2 + v }; return s`, b, n+2, a)
+		body = fmt.Sprintf(`c1 := make(chan int); c2 := make(chan int, %d); go func() { chk(); for i := 0; i < %d; i++ { c1 <- i }; close(c1) }(); go func() { chk(); for v := range c1 { c2 <- v*v + %d }; close(c2) }(); s := 0; for v := range c2 { s = s*2 + v }; return s`, b, n+2, a)
 	case 7:
 		kind = "nested-go-waitgroup"
-		body = fmt.Sprintf(`var wg sync.WaitGroup; res := make([]int, %d); for i := 0; i < %d; i++ { wg.Add(1); go func(k int) { defer wg.Done(); var w2 sync.WaitGroup; w2.Add(1); go func() { defer w2.Done(); res[k] = k + %d }(); w2.Wait(); res[k] *= 2 }(i) }; wg.Wait(); s := 0; for _, v := range res { s = s*5 + v }; return s`, n, n, a)
+		body = fmt.Sprintf(`var wg sync.WaitGroup; res := make([]int, %d); for i := 0; i < %d; i++ { wg.Add(1); go func(k int) { defer wg.Done(); chk(); var w2 sync.WaitGroup; w2.Add(1); go func() { defer w2.Done(); chk(); res[k] = k + %d }(); w2.Wait(); res[k] *= 2 }(i) }; wg.Wait(); s := 0; for _, v := range res { s = s*5 + v }; return s`, n, n, a)
 	default:
 		kind = "close-broadcast-select"
-		body = fmt.Sprintf(`stop := make(chan bool); out := make(chan int, %d); for i := 0; i < %d; i++ { go func(k int) { <-stop; select { case out <- k + %d: } }(i) }; close(stop); s := 0; for i := 0; i < %d; i++ { s += <-out }; _, ok := <-stop; if !ok { s += 1000 }; return s`, n, n, a, n)
+		body = fmt.Sprintf(`stop := make(chan bool); out := make(chan int, %d); for i := 0; i < %d; i++ { go func(k int) { chk(); <-stop; select { case out <- k + %d: } }(i) }; close(stop); s := 0; for i := 0; i < %d; i++ { s += <-out }; _, ok := <-stop; if !ok { s += 1000 }; return s`, n, n, a, n)
 	}
 	return prog{Name: name, Kind: kind, Src: "func " + name + "() int { " + body + " }"}
 }
@@ -121,7 +131,7 @@ func genDep(rng *vh.Rng, k int) prog {
 		}
 		total += m
 		seqs = append(seqs, seq)
-		gos = append(gos, "go func() { "+strings.Join(sends, "; ")+" }()")
+		gos = append(gos, "go func() { chk(); "+strings.Join(sends, "; ")+" }()")
 	}
 	body := fmt.Sprintf(`ch := make(chan int, %d); %s; r := 0; for i := 0; i < %d; i++ { r = r*10 + <-ch }; return r`, capn, strings.Join(gos, "; "), total)
 	return prog{Name: name, Kind: fmt.Sprintf("order-dependent:%dsenders:cap%d", ns, capn), Src: "func " + name + "() int { " + body + " }", adm: merges(seqs, 10)}
@@ -131,7 +141,7 @@ func buildOracle(a *vh.Args, progs []prog) (map[string]int, error) {
 	dir := a.Path("oracle")
 	os.MkdirAll(dir, 0o755)
 	var sb strings.Builder
-	sb.WriteString("package main\n\nimport (\n\t\"fmt\"\n\t\"sync\"\n)\n\nvar _ sync.Mutex\n\n")
+	sb.WriteString("package main\n\nimport (\n\t\"fmt\"\n\t\"sync\"\n)\n\nvar _ sync.Mutex\n\nfunc chk() interface{} { return nil }\n\n")
 	for _, p := range progs {
 		sb.WriteString(p.Src + "\n\n")
 	}
@@ -175,12 +185,78 @@ func buildOracle(a *vh.Args, progs []prog) (map[string]int, error) {
 	return res, nil
 }
 
+// probe: state of the ownership oracle (see the header)
+type probe struct {
+	calls, viol, shared int64
+	first               atomic.Value
+	active              sync.Map // Run -> identity of the goroutine currently inside chk with a frame of that Run
+}
+
+var pr probe
+
 func newInterp() *fast.Interp {
 	ir := fast.New()
 	ir.Comp.Globals.Stderr = io.Discard
 	ir.Comp.Globals.Stdout = io.Discard
+	chk := func(interpv xr.Value) xr.Value {
+		in := interpv.Interface().(*fast.Interp)
+		run, owner := in.VerifRunOf()
+		me := gls.GoID()
+		n := atomic.AddInt64(&pr.calls, 1)
+		if owner != me {
+			if atomic.AddInt64(&pr.viol, 1) == 1 {
+				pr.first.Store(fmt.Sprintf("frame's Run is owned by identity %#x, running goroutine is %#x", owner, me))
+			}
+		}
+		if prev, loaded := pr.active.LoadOrStore(run, me); loaded && prev.(uintptr) != me {
+			atomic.AddInt64(&pr.shared, 1)
+		}
+		if n%3 == 0 {
+			runtime.Gosched()
+		}
+		pr.active.Delete(run)
+		return xr.ValueOf(0)
+	}
+	ir.DeclEnvFunc("chk", fast.Function{Fun: chk, Type: ir.Comp.TypeOf(func(interface{}) interface{} { return nil })})
 	ir.Eval(`import "sync"`)
 	return ir
+}
+
+// registryRestored polls until the registry is exactly {creator -> the interpreter's Run} (the go-statement goroutines
+// remove their records in a deferred call after the function returned, i.e. slightly after the program's result)
+func registryRestored(ir *fast.Interp) (bool, string) {
+	me := gls.GoID()
+	myRun, myOwner := ir.VerifRunOf()
+	deadline := time.Now().Add(3 * time.Second)
+	for {
+		reg := ir.VerifRegistry()
+		what := ""
+		creator := false
+		for _, e := range reg {
+			if e.Goid != e.Owner {
+				return false, fmt.Sprintf("registry[%#x] is a record owned by %#x", e.Goid, e.Owner)
+			}
+			if e.Goid == me {
+				creator = e.Run == myRun
+			}
+		}
+		switch {
+		case myOwner != me:
+			return false, "the interpreter's own Run is not owned by the creator goroutine"
+		case !creator:
+			// never transient: nothing but the creator may remove or replace the creator's entry
+			return false, fmt.Sprintf("the creator's registry entry is missing or replaced (%d entries)", len(reg))
+		case len(reg) != 1:
+			what = fmt.Sprintf("%d registry entries left after all goroutines of the program finished", len(reg))
+		default:
+			return true, ""
+		}
+		if time.Now().After(deadline) {
+			return false, what
+		}
+		runtime.Gosched()
+		time.Sleep(50 * time.Microsecond)
+	}
 }
 
 var corpusProg = []string{
@@ -277,7 +353,7 @@ func main() {
 	if raceEnabled && mode == "" {
 		reexec(a)
 	}
-	rep := vh.NewReport(a, "part 1: PRNG-generated concurrent programs from 9 schedule-independent families (fan-in, buffered+close+range, WaitGroup+Mutex, select with default, select over two producers, closure shared between goroutines, pipeline, nested go, close-broadcast) with random sizes/capacities/constants, each run R times under GOMAXPROCS 1,2,4,8 and compared with the compiled function; "+
+	rep := vh.NewReport(a, "part 1: PRNG-generated concurrent programs from 9 schedule-independent families (fan-in, buffered+close+range, WaitGroup+Mutex, select with default, select over two producers, closure shared between goroutines, pipeline, nested go, close-broadcast) with random sizes/capacities/constants, each run R times under GOMAXPROCS 1,2,4,8 and compared with the compiled function; ownership probe chk() at the start of every goroutine body and closure, registry audit after every program; "+
 		"part 2: order-dependent programs (2-3 senders, 1-2 values each, capacity 0-2) checked against the exhaustively enumerated admissible set; every program with >= 2 goroutines is non-trivial; distinct by SHA-256 of the source")
 	wd := vh.NewWatchdog(rep, 60*time.Second)
 	if mode == "corpus" {
@@ -311,7 +387,7 @@ func main() {
 	}
 	ir := newInterp()
 	procs := []int{1, 2, 4, 8}
-	runs := 0
+	runs, regBad := 0, 0
 	check := func(p prog, ok func(int) bool, wantDesc interface{}) {
 		wd.Beat(p)
 		if perr := vh.Catch(func() { ir.Eval(p.Src) }); perr != nil {
@@ -330,6 +406,12 @@ func main() {
 			if !ok(got) {
 				rep.Fail(vh.Failure{Key: p.Src, What: "result not producible by compiled Go", Input: p, Got: got, Want: wantDesc})
 				break
+			}
+		}
+		if ok, what := registryRestored(ir); !ok {
+			regBad++
+			if regBad <= 3 {
+				rep.Fail(vh.Failure{Key: "registry:" + p.Src, What: "registry of per-goroutine records not restored after the program: " + what, Input: p, Got: what, Want: "{creator -> interpreter's Run}"})
 			}
 		}
 		rep.Count(p.Src, true)
@@ -359,6 +441,14 @@ func main() {
 	if !raceEnabled {
 		runCorpus(rep, 50)
 	}
+	if pr.viol != 0 {
+		rep.Fail(vh.Failure{Key: "probe:ownership", What: "a frame allocated in a goroutine uses a Run owned by another identity (count)", Input: "all programs", Got: fmt.Sprint(pr.viol, " first: ", pr.first.Load()), Want: 0})
+	}
+	if pr.shared != 0 {
+		rep.Fail(vh.Failure{Key: "probe:shared", What: "one Run observed in use by two goroutines at once (count)", Input: "all programs", Got: pr.shared, Want: 0})
+	}
 	rep.Extra["runs"] = runs
+	rep.Extra["probe_calls"] = pr.calls
+	rep.Extra["registry_audits_failed"] = regBad
 	rep.Write()
 }
